@@ -374,3 +374,41 @@ CHECKS['C14'] = dict(
     min_nontrivial={'quick': 1000, 'thorough': 10000},
     min_counters={'quick': {'threads': 10000, 'api_operations': 150000}, 'thorough': {'threads': 50000}},
 )
+
+C15_SILK = ['silk_VAD_GetSA_Q8_sse4_1', 'silk_NSQ_sse4_1', 'silk_NSQ_del_dec_sse4_1', 'silk_NSQ_del_dec_avx2', 'silk_VQ_WMat_EC_sse4_1']
+C15_FLOAT = C15_SILK + ['xcorr_kernel_sse', 'celt_inner_prod_sse', 'dual_inner_prod_sse', 'comb_filter_const_sse', 'op_pvq_search_sse2', 'celt_pitch_xcorr_avx2', 'silk_inner_product_FLP_avx2']
+C15_FIXED = C15_SILK + ['celt_fir_sse4_1', 'xcorr_kernel_sse4_1', 'celt_inner_prod_sse2', 'celt_inner_prod_sse4_1', 'silk_inner_prod16_sse4_1', 'silk_burg_modified_sse4_1']
+CHECKS['C15'] = dict(
+    level='exploration',
+    rule="live: every SIMD entry point of the x86 dispatch tables is interposed; whole-codec workloads (random ctl histories, all modes and "
+         "frame sizes, 14 signal families plus full-scale alternating samples through the int16 API, decode incl. PLC) run with the RTCD "
+         "level capped to 1..4 and every kernel call is repeated on copies with the portable C twin: integer kernels (NSQ, NSQ_del_dec "
+         "SSE4.1/AVX2, VAD, LTP codebook search, fixed-point fir/xcorr/inner products/Burg) bit-identical incl. all state bytes; float "
+         "kernels within 2.5(n+2)eps sum|x y| (comb filter per sample, PVQ search: K pulses, correct signs, objective within 2e-3). direct: "
+         "the vector kernels called through the real dispatch with every length 1..1024, pointer offsets 0..3/7 elements and six data styles "
+         "(unit, 1e-20, 1e15, 32768, alternating sign, mixed magnitudes). codec: five encoders and five decoders created at levels 0..4: "
+         "fixed build byte-identical packets and PCM, float build every decoder level reproduces every encoder level's final range; also "
+         "under upstream's OPUS_CHECK_ASM self-check build. Distinct = (cap, rate, channels, signal / length residue, offsets, style / TOC).",
+    assumptions=COMMON_ASSUME + ["only feature levels the sandbox CPU supports are exercised (it has AVX2: all five)", "NaN/Inf inputs are excluded for float kernels (the reassociation bound is undefined)"],
+    evals_counter=None,
+    runs=[
+        dict(h='h_c15.c', mode='live', flavour='asan', n={'quick': 320, 'thorough': 8000}, args=['cap=4'], wraps=C15_FLOAT),
+        dict(h='h_c15.c', mode='live', flavour='asan', n={'quick': 320, 'thorough': 8000}, args=['cap=3'], wraps=C15_FLOAT),
+        dict(h='h_c15.c', mode='live', flavour='asan', n={'quick': 160, 'thorough': 4000}, args=['cap=2'], wraps=C15_FLOAT),
+        dict(h='h_c15.c', mode='live', flavour='asan', n={'quick': 160, 'thorough': 4000}, args=['cap=1'], wraps=C15_FLOAT),
+        dict(h='h_c15.c', mode='live', flavour='asan-fixed', n={'quick': 320, 'thorough': 8000}, args=['cap=4'], wraps=C15_FIXED),
+        dict(h='h_c15.c', mode='live', flavour='asan-fixed', n={'quick': 320, 'thorough': 8000}, args=['cap=3'], wraps=C15_FIXED),
+        dict(h='h_c15.c', mode='live', flavour='asan-fixed', n={'quick': 160, 'thorough': 4000}, args=['cap=2'], wraps=C15_FIXED),
+        dict(h='h_c15.c', mode='direct', flavour='asan', n={'quick': 4000, 'thorough': 200000}, wraps=C15_FLOAT),
+        dict(h='h_c15.c', mode='direct', flavour='asan-fixed', n={'quick': 4000, 'thorough': 200000}, wraps=C15_FIXED),
+        dict(h='h_c15.c', mode='codec', flavour='prod-np', n={'quick': 320, 'thorough': 5000}, wraps=C15_FLOAT),
+        dict(h='h_c15.c', mode='codec', flavour='prod-fixed-np', n={'quick': 320, 'thorough': 5000}, wraps=C15_FIXED),
+        dict(h='h_c15.c', mode='codec', flavour='checkasm', n={'quick': 160, 'thorough': 3000}, wraps=C15_FLOAT),
+        dict(h='h_c15.c', mode='codec', flavour='checkasm-fixed', n={'quick': 160, 'thorough': 3000}, wraps=C15_FIXED),
+    ],
+    min_nontrivial={'quick': 1000, 'thorough': 2000},
+    min_counters={'quick': {'live_kernel_comparisons': 1000000, 'direct_kernel_comparisons': 100000, 'codec_level_frames': 10000,
+                            'kernel_calls:silk_NSQ_del_dec_avx2': 1000, 'kernel_calls:silk_NSQ_sse4_1': 1000, 'kernel_calls:silk_VAD_GetSA_Q8_sse4_1': 1000, 'kernel_calls:silk_VQ_WMat_EC_sse4_1': 1000,
+                            'kernel_calls:celt_pitch_xcorr_avx2': 1000, 'kernel_calls:op_pvq_search_sse2': 1000, 'kernel_calls:comb_filter_const_sse': 1000, 'kernel_calls:silk_burg_modified_sse4_1': 1000, 'kernel_calls:celt_fir_sse4_1': 1000},
+                  'thorough': {'live_kernel_comparisons': 20000000}},
+)
